@@ -6,6 +6,7 @@
         -> "ok <fat bits> <digest>" | "err <Variant>" | "panic" | "outoffuel"
    "img <fill> <off> <hex> <off> <hex> ..."     current := exactly these pages over <fill> (re-synchronise on the library's
         device, e.g. after an operation this model does not cover) -> "ok <digest>"
+   "imgq <fill> <off> <hex> ..."                as img, answers just "ok" (no digest: cheaper when every call is re-based)
    "create <name> <y> <m> <d> <h> <mi> <s> <ms>"   vol_create_empty_file_root
         -> "ok <first> <last> | exists | err <Variant> | panic | fuel", then " <digest>"
         create / remove / rename run MOUNTED (Model/VolStatus.v): vol_mount_status ; vols_* (the operation, then set_dirty_flag(true)
@@ -30,6 +31,10 @@
    "cgrow <name> <y> <m> <d> <h> <mi> <s> <ms>"   vol_create_file_grow on the selected chain with the current latch; the chain and
         the latch are kept for the next line -> "ok <first> <last> | exists | err <Variant> | panic | fuel", then
         " chain=<c1,c2,..> fi=<free|->,<next|->" (no digest: the following "poke" prints it)
+   ROOT DIRECTORY OF A FAT32 VOLUME, without growth (Model/Vol32Root.v: the chain that starts at BPB_RootClus, no parent entry):
+   "r32chain"                               root32_chain of the current image -> "ok <c1,c2,..>" | "none" (broken root chain)
+   "r32create <name> <y> <m> <d> <h> <mi> <s> <ms>" / "r32remove <name>" / "r32rename <src> <dst>"   vol32_root_create / _remove /
+        _rename -> as ccreate / cremove / crename ("na": would grow / entry owns clusters / is a directory / broken root chain)
    "wf"                                     Spec/Wf.wf_issues (folding: Spec/WfFold.wf_fold with the loaded table) of the current
         image: "<count> <free clusters>: <Issue(..)> ..." *)
 open Conv
@@ -75,7 +80,7 @@ let line (t : string list) : string =
         | Base.Err e -> "err " ^ err_name e
         | Base.Panic -> "panic"
         | Base.OutOfFuel -> "outoffuel"))
-  | "img" :: fill :: pages ->
+  | ("img" | "imgq" as cmd) :: fill :: pages ->
     let im = ref (Image.img_empty (n_of_string fill)) in
     let rec go l =
       match l with
@@ -83,7 +88,7 @@ let line (t : string list) : string =
       | _ -> () in
     go pages;
     cur := !im; stale := false;
-    "ok " ^ digest ()
+    if cmd = "imgq" then "ok" else "ok " ^ digest ()
   | ["create"; name; y; m; d; h; mi; s; ms] ->
     (* mounted (Model/VolStatus.v): mount ; the operation with its status write ; unmount.  "mark<0|1>": the status byte was written *)
     let g = Abs.parse_geom !cur in
@@ -143,6 +148,26 @@ let line (t : string list) : string =
      | Some (r, im) -> cur := im; pre (res_tag (fun _ -> "ok") r ^ " " ^ digest ()))
   | ["crename"; src; dst] ->
     (match VolChainDir.vol_rename_in_chain upper oem !cur !chain (name_of_hex src) (name_of_hex dst) with
+     | None -> stale := true; "na"
+     | Some (r, im) -> cur := im; pre (res_tag (fun _ -> "ok") r ^ " " ^ digest ()))
+  | ["r32chain"] ->
+    (match Vol32Root.root32_chain !cur with
+     | Some ch -> pre ("ok " ^ String.concat "," (Stdlib.List.map string_of_n ch))
+     | None -> pre "none")
+  | ["r32create"; name; y; m; d; h; mi; s; ms] ->
+    (match Vol32Root.vol32_root_create upper oem !cur (name_of_hex name) (M_c18.mkdt y m d h mi s ms) with
+     | None -> stale := true; "na"
+     | Some (r, im) ->
+       cur := im;
+       pre (res_tag (fun o -> match o with
+                              | None -> "exists"
+                              | Some (p, q) -> Printf.sprintf "ok %s %s" (string_of_n p) (string_of_n q)) r ^ " " ^ digest ()))
+  | ["r32remove"; name] ->
+    (match Vol32Root.vol32_root_remove upper oem !cur (name_of_hex name) with
+     | None -> stale := true; "na"
+     | Some (r, im) -> cur := im; pre (res_tag (fun _ -> "ok") r ^ " " ^ digest ()))
+  | ["r32rename"; src; dst] ->
+    (match Vol32Root.vol32_root_rename upper oem !cur (name_of_hex src) (name_of_hex dst) with
      | None -> stale := true; "na"
      | Some (r, im) -> cur := im; pre (res_tag (fun _ -> "ok") r ^ " " ^ digest ()))
   | ["fi"; fr; nx] ->
